@@ -1243,7 +1243,7 @@ class Compiler:
             self._collect_var_decls(node.body, local_vars_set)
         # Update locals list with collected vars, so that functions nested in an
         # initialiser already see the variable being declared (var f = function(){ f() })
-        for var in local_vars_set:
+        for var in sorted(local_vars_set):  # in a fixed order: not the host's set order
             if var not in self.locals:
                 self.locals.append(var)
 
@@ -1253,11 +1253,11 @@ class Compiler:
 
         # Find variables captured by inner functions
         captured = self._find_captured_vars(node.body, local_vars_set)
-        self._cell_vars = list(captured)
+        self._cell_vars = sorted(captured)
 
         # Find all free variables needed
         required_free = self._find_required_free_vars(node.body, local_vars_set)
-        self._free_vars = list(required_free)
+        self._free_vars = sorted(required_free)
 
         # Pop the outer scope we pushed
         self._outer_locals.pop()
@@ -1361,7 +1361,7 @@ class Compiler:
                 self_slot = None  # a parameter of that name shadows the own name
         local_vars_set = set(self.locals) | declared
         # Update locals list with collected vars
-        for var in local_vars_set:
+        for var in sorted(local_vars_set):  # in a fixed order: not the host's set order
             if var not in self.locals:
                 self.locals.append(var)
 
@@ -1371,11 +1371,11 @@ class Compiler:
 
         # Find variables captured by inner functions
         captured = self._find_captured_vars(body, local_vars_set)
-        self._cell_vars = list(captured)
+        self._cell_vars = sorted(captured)
 
         # Find all free variables needed (including pass-through for nested functions)
         required_free = self._find_required_free_vars(body, local_vars_set)
-        self._free_vars = list(required_free)
+        self._free_vars = sorted(required_free)
 
         # Pop the outer scope we pushed
         self._outer_locals.pop()
